@@ -14,6 +14,7 @@
 import Msmart.Lemmas.SessionRetry
 import Msmart.Lemmas.SessionRecover
 import Msmart.Lemmas.SessionSettle
+import Msmart.Lemmas.SessionSettleV2
 import Msmart.Props.C01Layers
 import Msmart.Props.C06
 import Msmart.Lemmas.SessionContain
@@ -428,6 +429,90 @@ theorem exchange_on_idle_session {p : Params} {rx : Reactions} {s : S} {c : Conn
     (hseg : segQueue c.core.v3 c.buffer b = [pkt]) (hdec : decodeWith c.core.v3 c.core.localKey pkt = .ok f) :
     ∃ s', lanSend p rx s frame (n + 1) = (.ok [f], s') ∧ nData (evsOf s') = nData (evsOf s) + 1 :=
   lanSend_ready_answered frame n hr hal hauth d b pkt f hrx hd hseg hdec
+
+
+/-! ### V2 sessions: histories of faults, then recovery -/
+
+/-- operations of a V2 history: exchanges with any retry budget, clock jumps, lifetime changes -/
+def PlainOp2 : Op → Prop
+  | .send _ => True
+  | .sendN _ _ => True
+  | .advance _ => True
+  | .setMaxLifetime _ => True
+  | _ => False
+
+theorem step_settled_v2 (p : Params) (rx : Reactions) (hg : Gentle2 p rx) (s : S) (op : Op) (hs : Settled2 s)
+    (hop : PlainOp2 op) : Settled2 (step p rx s op).2 := by
+  cases op with
+  | send f =>
+    simp only [step]
+    cases hl : lanSend p rx s f Generated.lanRetries with
+    | mk r s1 => have h1 := lanSend_settled2 hg hs hl; cases r <;> exact h1
+  | sendN f n =>
+    simp only [step]
+    cases hl : lanSend p rx s f n with
+    | mk r s1 => have h1 := lanSend_settled2 hg hs hl; cases r <;> exact h1
+  | advance ms => exact settled2_pump _ hs
+  | setMaxLifetime m => exact ⟨hs.quiet, hs.unarmed, hs.ver, hs.conn⟩
+  | authenticate t k => cases hop
+  | sendCancelled f ms => cases hop
+  | authCancelled t k ms => cases hop
+
+/-- **C08 (V2: faults leave nothing behind).** Any history of exchanges, clock jumps and lifetime changes
+    on a V2 session, against a peer that reacts to each write with nothing or with ONE prompt event of
+    any kind — an answer, an error packet, garbage, a close — and with any connect outcomes (success,
+    refusal, hang), ends in a settled session.  (Induction over histories of any length.) -/
+theorem faults_leave_settled_v2 (p : Params) (rx : Reactions) (hg : Gentle2 p rx) (ops : List Op) :
+    ∀ s, Settled2 s → (∀ op ∈ ops, PlainOp2 op) → Settled2 (run p rx s ops).2 := by
+  induction ops with
+  | nil => intro s hs _; exact hs
+  | cons op t ih =>
+    intro s hs hops
+    have h1 := step_settled_v2 p rx hg s op hs (hops op (List.mem_cons_self ..))
+    have := ih (step p rx s op).2 h1 (fun o ho => hops o (List.mem_cons_of_mem _ ho))
+    simpa [run] using this
+
+/-- where the next transmission will go: the live connection's next write, or the first write of the
+    connection that has to be opened -/
+def nextWrite (s : S) : Nat × Nat :=
+  match s.l.conn with
+  | some c => if connAlive s then (c.core.cid, c.core.nWrites) else (s.w.nConn + 1, 0)
+  | none => (s.w.nConn + 1, 0)
+
+/-- **C08 (V2: the next exchange after any faults succeeds).** After ANY such history of faults, with no
+    user intervention: if the connection attempt the next exchange may need succeeds and the device
+    answers the next transmission within the read timeout with a packet that decodes to `f`, `LAN.send`
+    returns exactly `[f]` after that single transmission. -/
+theorem recovery_after_faults_v2 (p : Params) (rx : Reactions) (hg : Gentle2 p rx) (ops : List Op) (s0 : S)
+    (hs0 : Settled2 s0) (hops : ∀ op ∈ ops, PlainOp2 op) (frame : Bytes) (n : Nat) (d : Nat) (b f : Bytes)
+    (hconn : connAlive (run p rx s0 ops).2 = false → ∃ cs, (run p rx s0 ops).2.w.connects = .ok :: cs)
+    (hrx : rx (nextWrite (run p rx s0 ops).2).1 (nextWrite (run p rx s0 ops).2).2 = [(d, .data b)])
+    (hd : d ≤ p.readTimeout) (hdec : packetDecode b = .ok f) :
+    ∃ s', lanSend p rx (run p rx s0 ops).2 frame (n + 1) = (.ok [f], s') ∧
+      nData (evsOf s') = nData (evsOf (run p rx s0 ops).2) + 1 := by
+  have hs := faults_leave_settled_v2 p rx hg ops s0 hs0 hops
+  generalize (run p rx s0 ops).2 = s at hs hconn hrx
+  rcases settled2_cases hs with hdead | ⟨c, hr, hv, hal⟩
+  · obtain ⟨cs, hcs⟩ := hconn hdead
+    have hnw : nextWrite s = (s.w.nConn + 1, 0) := by
+      unfold nextWrite
+      cases hc : s.l.conn with
+      | none => rfl
+      | some c => simp [hdead]
+    rw [hnw] at hrx
+    exact recovery_v2 p rx s frame n cs hs.ver hdead hs.quiet hs.unarmed hcs d b f hrx hd hdec
+  · have hnw : nextWrite s = (c.core.cid, c.core.nWrites) := by
+      unfold nextWrite; rw [hr.conn]; simp [hal]
+    rw [hnw] at hrx
+    exact exchange_on_idle_session frame n hr hal (by intro h; simp [isV3, hr.conn, hv] at h) d b b f hrx hd
+      (by simp [segQueue, hv]) (by simp [decodeWith, hv, hdec])
+
+/-- a fresh V2 `LAN` object is settled -/
+theorem settled_v2_fresh (s : S) (h1 : s.w.pending = []) (h2 : s.w.cancelAt = none) (h3 : s.l.version ≠ 3)
+    (h4 : s.l.conn = none) : Settled2 s :=
+  ⟨h1, h2, h3, by intro c hc; rw [h4] at hc; cases hc⟩
+
+example : Settled2 ({} : S) := settled_v2_fresh _ rfl rfl (by decide) rfl
 
 /-! non-vacuity: a ready state exists and a one-packet V2 answer is a `segQueue` of one item -/
 example : Ready { l := { conn := some { core := { cid := 1, v3 := false } } } } { core := { cid := 1, v3 := false } } :=
